@@ -165,7 +165,7 @@ def work(job):
     try:
         st = stepcmp.StepStats()
         src = job['src']
-        comp = nm.compile_src(src, want_c=True)
+        comp = nm.compile_src(src, job.get('flags', ()), want_c=True)
         if comp.verdict != 'ok':
             out['status'] = 'rejected:' + comp.verdict
             if comp.verdict in ('crash', 'timeout'):
@@ -249,6 +249,10 @@ def main(tier, replay_path):
         jobs.append({'label': label, 'src': src, 'K': (2 if big else K) if tier == 'quick' else (3 if big else K), 'max_paths': 4000 if tier == 'quick' else 20000})
     for i, src in enumerate(gen_c01.programs(chk.seed(), 40 if tier == 'quick' else 500)):
         jobs.append({'label': f'gen{i}', 'src': src, 'K': K + (1 if tier == 'quick' else 0), 'max_paths': 4000 if tier == 'quick' else 20000})
+    # the same reading must hold for the optimised machine: small programs are also compiled at -O3
+    for j in list(jobs):
+        if len(j['src']) < 1200 and (tier != 'quick' or j['label'].startswith(('gen', 'corpus/'))):
+            jobs.append(dict(j, label=j['label'] + ' -O3', flags=('-O3',)))
     jobs.sort(key=lambda j: -len(j['src']))
     orig = l3check.work
     l3check.work = work
